@@ -1051,8 +1051,12 @@ evhttp_handle_chunked_read(struct evhttp_request *req, struct evbuffer *buf)
 				return (DATA_CORRUPTED);
 			}
 			ntoread = evutil_strtoll(p, &endp, 16);
+			/* chunk-size may be followed by blanks and by chunk
+			 * extensions (";name=value"), which are ignored */
+			while (*endp == ' ' || *endp == '\t')
+				++endp;
 			error = (*p == '\0' ||
-			    (*endp != '\0' && *endp != ' ') ||
+			    (*endp != '\0' && *endp != ';') ||
 			    ntoread < 0);
 			mm_free(p);
 			if (error) {
